@@ -491,6 +491,12 @@ func (x *Exec) binopInt(fr *Frame, st *State, op token.Token, a, b Term, ta, tb,
 	case token.SHL, token.SHR:
 		n, ok := termIsLit(b)
 		if !ok {
+			if fr != nil && x.inQuant == 0 {
+				x.assumed["shift by a symbolic count in int mode abstracted to an arbitrary value of its type"] = true
+				r := x.declare("shiftop", "Int")
+				x.assume(inRange(r, tr))
+				return r
+			}
 			panic(toolErr("symbolic shift count in int mode (use mode bv): " + ins.String()))
 		}
 		w, _ := intWidth(ta.Underlying().(*types.Basic))
@@ -520,6 +526,15 @@ func (x *Exec) binopInt(fr *Frame, st *State, op token.Token, a, b Term, ta, tb,
 		if n, ok := termIsLit(a); ok && isMask(n) {
 			return Term{fmt.Sprintf("(mod %s %s)", b.S, new(big.Int).Add(n, big.NewInt(1)).String()), "Int"}
 		}
+	}
+	if fr != nil && x.inQuant == 0 {
+		// A bit operation that the integer model does not express: its result is left
+		// unconstrained within the type's range (an over-approximation: anything proved
+		// holds for every value the real operation could produce).
+		x.assumed["bitwise operation in int mode abstracted to an arbitrary value of its type: "+op.String()] = true
+		r := x.declare("bitop", "Int")
+		x.assume(inRange(r, tr))
+		return r
 	}
 	panic(toolErr("bitwise operator " + op.String() + " in int mode (use mode bv): " + ins.String()))
 }
